@@ -30,7 +30,10 @@ pub fn check_select(s: &mut Session, q: &MSelect, rep: &mut Report) -> Result<()
         rep.count("ambiguous_conditions_skipped");
         return Ok(());
     }
-    let pkg = s.pkg.as_mut().expect("live");
+    let pkg = match s.pkg.as_mut() {
+        Some(p) => p,
+        None => return Err(crate::engine::no_package()),
+    };
     let got = guarded(|| {
         pkg.select_rows(q.lower()).map(|rows| {
             let cols: Vec<String> = rows.columns().iter().map(|c| c.name().to_string()).collect();
